@@ -79,6 +79,14 @@ theorem fact_wiring :
 theorem fact_check_page_conditions :
     Facts.C08.condsCheckPage = ["f.circuitState < circuitRed", "err != nil", "lcStart != 0", "!xorTillEnd.Empty()",
       "err != nil", "err != nil", "err != nil", "lcEnd > currentLC"] := by decide
+/-- `checkPage` talks to the store through exactly one `db.Write`, and the scan (`findBetweenLC`), the two `getZeroTo`
+    reads, `Replace` and `writeWithoutLock` are all inside that transaction's function; `tree.Replace` marks the replaced
+    leaf dirty under its own key (`current.splitLC`), which is the key `Load` reads it back under -/
+theorem fact_check_page_is_one_write_transaction :
+    Facts.C08.checkPageDbCalls = ["f.state.graph.db.Write"] ∧
+    Facts.C08.checkPageWriteBody = ["f.state.graph.findBetweenLC", "f.state.xorTree.getZeroTo", "f.state.xorTree.getZeroTo",
+      "f.state.xorTree.tree.Replace", "f.state.xorTree.writeWithoutLock"] ∧
+    Facts.C08.replaceDirtyKeys = ["current.splitLC"] ∧ Facts.C08.updatePathDirtyKeys = ["current.splitLC"] := by decide
 theorem fact_diagnostics :
     "core.GenericDiagnosticResult{Title: \"dag_xor\", Outcome: s.xorTree.getRoot().(*tree.Xor).Hash()}" ∈ Facts.C08.diagnosticsEntries ∧
     "core.GenericDiagnosticResult{Title: \"dag_lc_high\", Outcome: s.lamportClockHigh.Load()}" ∈ Facts.C08.diagnosticsEntries ∧
@@ -229,6 +237,7 @@ inductive Reachable : State NB → Prop
   | signalIncorrect {s} : Reachable s → Reachable (signalIncorrect s)
   | signalCorrect {s} : Reachable s → Reachable (signalCorrect s)
   | checkPage {s} : Reachable s → Reachable (checkPage cfg s)
+  | checkPageWith {s} (lcSeen : Nat) : Reachable s → Reachable (checkPageWith cfg lcSeen s)
 
 theorem reachable_inv {s : State NB} (r : Reachable s) : SInv cfg s := by
   induction r with
@@ -238,6 +247,7 @@ theorem reachable_inv {s : State NB} (r : Reachable s) : SInv cfg s := by
   | signalIncorrect _ ih => exact ⟨ih.g, ih.lc, ih.x, ih.i⟩
   | signalCorrect _ ih => exact ⟨ih.g, ih.lc, ih.x, ih.i⟩
   | checkPage _ ih => exact (ih.checkPage cfg_good).1
+  | checkPageWith lcSeen _ ih => exact (ih.checkPageWith cfg_good lcSeen).1
 
 /-- what is observable of a state: XOR and IBLT for a requested clock, the clock-ordered listing of any window, count,
     highest clock (memory and disk), head -/
@@ -434,6 +444,22 @@ theorem repair_idle_on_healthy_state {s : State NB} (r : Reachable s) :
     (checkPage cfg s).disk = s.disk ∧ (checkPage cfg s).mem.xorTree = s.mem.xorTree ∧
     (checkPage cfg s).mem.ibltTree = s.mem.ibltTree ∧ (checkPage cfg s).mem.lcHigh = s.mem.lcHigh :=
   ((reachable_inv r).checkPage cfg_good).2
+
+/-- **The repair is atomic with respect to `Add`.** The scan of the page, the recomputation, the comparison, `Replace`
+    and the persist happen inside one write transaction (`fact_check_page_is_one_write_transaction`), so an `Add` — with
+    any outcome — that slips in after `checkPage` read the atomic clock but before that transaction is simply seen by
+    it: the state stays healthy, the disk and both trees are exactly what the `Add` left. -/
+theorem repair_atomic_wrt_add {s : State NB} (r : Reachable s) (tx : Tx) (opt : AddOpts) :
+    let s1 := (add cfg s tx opt).1
+    let s2 := checkPageWith cfg s.mem.lcHigh s1
+    s2.disk = s1.disk ∧ s2.mem.xorTree = s1.mem.xorTree ∧ s2.mem.ibltTree = s1.mem.ibltTree ∧
+    Observables s2 s1.disk.txs := by
+  intro s1 s2
+  have h1 : SInv cfg s1 := ((reachable_inv r).add cfg_good tx opt).1
+  have c := h1.checkPageWith cfg_good s.mem.lcHigh
+  have o := observables_of_sinv c.1
+  rw [c.2.1] at o
+  exact ⟨c.2.1, c.2.2.1, c.2.2.2, o⟩
 
 /-- **Repair is local.** In a state whose XOR pages hold arbitrary values `val` (tree and shelf in sync — a corrupted
     leaf that was loaded from disk), `checkPage` with the circuit red, at an existing page `p`, sets page `p` — in
